@@ -283,12 +283,14 @@ class Program:
                     k = match_close(s, m.end() - 1)
                     body = re.sub(r"//[^\n]*", "", s[m.end():k])
                     body = re.sub(r"#\[[^\]]*\]", "", body)
-                    names = []
+                    names, ftypes = [], []
                     for part in split_top(body):
-                        mm = re.match(r"^\s*(?:pub(?:\([^)]*\))?\s+)?(\w+)\s*:", part)
+                        mm = re.match(r"^\s*(?:pub(?:\([^)]*\))?\s+)?(\w+)\s*:\s*(.*?)\s*$", part, re.S)
                         if mm:
                             names.append(mm.group(1))
+                            ftypes.append(re.sub(r"\s+", " ", mm.group(2)))
                     self.struct_fields.setdefault(m.group(1), names)
+                    self.__dict__.setdefault("struct_field_types", {}).setdefault(m.group(1), ftypes)
                 for m in re.finditer(r"\benum\s+(\w+)[^{;]*\{", s):
                     k = match_close(s, m.end() - 1)
                     body = re.sub(r"//[^\n]*", "", s[m.end():k])
